@@ -342,6 +342,25 @@ type InfixExpression struct {
 	Right Node
 }
 
+// rightOperandBindsTighter tells whether the right operand of op has to be printed as if op had a higher
+// precedence: operators are left associative, so an infix right operand of the same precedence keeps its
+// parentheses, a-(b-c), unless it is the same associative operator, a+(b+c).
+func rightOperandBindsTighter(op token.Type, right Node) bool {
+	r, ok := right.(*InfixExpression)
+	if !ok {
+		return false
+	}
+	if r.Type() != op {
+		return true
+	}
+	switch op { //nolint:exhaustive // the associative ones only.
+	case token.PLUS, token.ASTERISK, token.AND, token.OR, token.BITAND, token.BITOR, token.BITXOR:
+		return false
+	default:
+		return true
+	}
+}
+
 func (i InfixExpression) PrettyPrint(out *PrintState) *PrintState {
 	needParen, oldPrecedence := out.needParen(i.Token)
 	if needParen {
@@ -356,6 +375,9 @@ func (i InfixExpression) PrettyPrint(out *PrintState) *PrintState {
 	if i.Right == nil {
 		out.Print("nil")
 	} else {
+		if rightOperandBindsTighter(i.Type(), i.Right) {
+			out.ExpressionPrecedence++
+		}
 		i.Right.PrettyPrint(out)
 	}
 	if needParen {
